@@ -53,6 +53,12 @@ RULES = {
 }
 
 
+
+def normp(x):
+    """normal form of a pattern: white space and the trailing comma of a pattern split over lines are immaterial"""
+    return re.sub(r',\)', ')', norm(x))
+
+
 LABEL_RE = re.compile(r'//:\s*(\S+)(?:\s+(\S+))?\s*$')
 AFTER = {}      # label -> labels whose failure subsumes this one (`//: label props/after=L1+L2`)
 
@@ -325,7 +331,7 @@ class Unit:
         # verified against its contract, so a change that removes the loop AND breaks the postcondition fails
         for k, lines in list(loops.items()):
             if k >= len(lps):
-                self.soft_undecided.append(dict(msg='%s: fn %s has %d loops, contract annotates loop %d' % (where, name, len(lps), k), props=list(props)))
+                self.soft_undecided.append(dict(msg='%s: fn %s has %d loops, contract annotates loop %d' % (where, name, len(lps), k), props=list(props), fn=name, anchor='loop', loops_left=len(lps)))
                 continue
             ins.append((lps[k]['open'] - b0, 'loop%d' % k, lines))
         for k in range(len(lps)):
@@ -351,7 +357,7 @@ class Unit:
                     auto_for = True
         for k, lines in loopends.items():
             if k >= len(lps):
-                self.soft_undecided.append(dict(msg='%s: fn %s has %d loops, contract annotates the end of loop %d' % (where, name, len(lps), k), props=list(props)))
+                self.soft_undecided.append(dict(msg='%s: fn %s has %d loops, contract annotates the end of loop %d' % (where, name, len(lps), k), props=list(props), fn=name, anchor='loop', loops_left=len(lps)))
                 continue
             ins.append((lps[k]['close'] - b0, 'proof', lines))
         cls = s.closures_in(f['open'] + 1, f['close'])
@@ -359,7 +365,7 @@ class Unit:
         # place for the invariant when EXPR is a shim iterator
         for k, lines in forloops.items():
             if k >= len(lps) or lps[k]['kind'] != 'for':
-                self.soft_undecided.append(dict(msg='%s: fn %s: contract annotates for-loop %d which is not there' % (where, name, k), props=list(props)))
+                self.soft_undecided.append(dict(msg='%s: fn %s: contract annotates for-loop %d which is not there' % (where, name, k), props=list(props), fn=name, anchor='loop', loops_left=len(lps)))
                 continue
             lp = lps[k]
             hdr = s.text[lp['kw'] + 3:lp['open']]
@@ -400,7 +406,7 @@ class Unit:
                 hits = [mm for mm in re.finditer(m.group(1), body)]
                 want = int(m.group(2) or 0)
                 if len(hits) <= want:
-                    self.soft_undecided.append(dict(msg='%s: proof anchor /%s/ not found in fn %s' % (where, m.group(1), name), props=list(props)))
+                    self.soft_undecided.append(dict(msg='%s: proof anchor /%s/ not found in fn %s' % (where, m.group(1), name), props=list(props), fn=name, anchor='proof', loops_left=len(lps)))
                     continue
                 off = body.rfind('\n', 0, hits[want].start()) + 1
                 ins.append((off, 'proof', lines))
@@ -675,7 +681,7 @@ class Unit:
         ls = text.find('\n', body_lo) + 1
         start = end = None
         frm_re = re.compile(frm.strip('/'))
-        to_re = re.compile(to.strip('/'))
+        to_re = re.compile(to.strip('/')) if to.strip('/') != '$' else re.compile(r'(?!x)x')     # `/$/`: up to the end of the body
         pos = ls
         while pos < f['close']:
             le = text.find('\n', pos)
@@ -688,11 +694,78 @@ class Unit:
                 end = pos
                 break
             pos = le + 1
+        if start is not None and end is None and to.strip('/') == '$':
+            end = text.rfind('\n', 0, f['close']) + 1       # up to the end of the function body
         if start is None or end is None:
             raise ExtractError('%s: slice %s..%s not found in fn %s' % (file, frm, to, fn))
         where = '%s:%d' % (s.path, s.line_of(start))
         seg = text[start:end].rstrip('\n')
-        seg = self.apply_subs(self.apply_rules(seg, where), self._simple_subs(block), where)
+        # R-outline: `//@outline PATTERN [#k] => TEXT` replaces the body of the match arm with that pattern by TEXT (a call
+        # of the function that unit `arms` verified this very body as); `//@inventory` makes every arm of the slice that
+        # is neither outlined nor listed by `//@inline PATTERN` a reason for indecision (an arm the contracts do not know)
+        outl = []
+        inline_ok = []
+        inventory = False
+        statevars = []
+        rest_block = []
+        for ln, l in block:
+            st = l.strip()
+            if st.startswith('//@outline '):
+                om = re.match(r'//@outline\s+(.*?)(?:\s+#(\d+))?\s*=>\s*(.*)$', st)
+                outl.append((om.group(1).strip(), int(om.group(2) or 0), om.group(3)))
+            elif st.startswith('//@inline '):
+                im = re.match(r'//@inline\s+(.*?)(?:\s+#(\d+))?\s*$', st)
+                inline_ok.append((im.group(1).strip(), int(im.group(2) or 0)))
+            elif st == '//@inventory':
+                inventory = True
+            elif st.startswith('//@statevars '):
+                statevars = st[13:].split()
+            else:
+                rest_block.append((ln, l))
+        if outl or inventory:
+            arms = s.arms_in(start, end)
+            seen = {}
+            keyed = []
+            for a in arms:
+                k = normp(a['pat'])
+                idx = seen.get(k, 0)
+                seen[k] = idx + 1
+                keyed.append((k, idx, a))
+            repl = []
+            used = set()
+            for pat, k, txt in outl:
+                hit = [a for kk, idx, a in keyed if kk == normp(pat) and idx == k]
+                if not hit:
+                    self.soft_undecided.append(dict(msg='%s: arm %s #%d to outline not found in %s' % (file, pat, k, fn), props=list(self.props)))
+                    continue
+                a = hit[0]
+                used.add((normp(pat), k))
+                b0, b1 = a['body']
+                # side condition of R-outline: whatever loop state the arm body assigns must come back through the call
+                # (assignment target or &mut argument of the replacement text); otherwise the call is not the body
+                READONLY = ('get', 'contains', 'contains_key', 'iter', 'len', 'is_empty', 'clone', 'keys', 'values', 'as_ref', 'is_some', 'is_none')
+                bm = s.masked[b0:b1]
+                for v in statevars:
+                    writes = re.search(r'(?<![\w.])%s\s*(?:[-+*/|&^]|<<|>>)?=(?!=)' % v, bm) or re.search(r'&mut\s+%s\b' % v, bm) \
+                        or any(mm.group(1) not in READONLY for mm in re.finditer(r'(?<![\w.])%s\s*\.\s*(\w+)\s*\(' % v, bm))
+                    back = re.search(r'(?<![\w.])%s\s*=(?!=)' % v, txt) or re.search(r'&mut\s+%s\b' % v, txt)
+                    if writes and not back:
+                        self.soft_undecided.append(dict(msg='%s:%d: arm `%s` assigns the loop variable %s, which its outlined call does not hand back' % (file, s.line_of(b0), re.sub(r'\s+', ' ', a['pat'])[:70], v), props=list(self.props)))
+                repl.append((b0 - start, b1 - start, (' ' + txt + ' ') if a['braced'] else ('{ ' + txt + ' }')))
+            if inventory:
+                for kk, idx, a in keyed:
+                    if (kk, idx) in used or any(normp(p_) == kk and k_ == idx for p_, k_ in inline_ok):
+                        continue
+                    # arms of matches nested inside an outlined or inlined arm body belong to that arm
+                    if any(x[0] <= a['start'] - start < x[1] for x in repl):
+                        continue
+                    if any(b['body'][0] <= a['start'] < b['body'][1] for k2, i2, b in keyed if any(normp(p_) == k2 and k_ == i2 for p_, k_ in inline_ok)):
+                        continue
+                    self.soft_undecided.append(dict(msg='%s:%d: match arm `%s` of %s is not one the contracts know' % (file, s.line_of(a['start']), re.sub(r'\s+', ' ', a['pat'])[:80], fn), props=list(self.props)))
+            for b0, b1, txt in sorted(repl, reverse=True):
+                seg = seg[:b0] + txt + '\n' * seg[b0:b1].count('\n') + seg[b1:]      # line numbers of what follows stay exact
+            self.rewrites.append(('R-outline %d arm bodies of %s replaced by calls of the functions they are verified as' % (len(repl), fn), where, len(repl)))
+        seg = self.apply_subs(self.apply_rules(seg, where), self._simple_subs(rest_block), where)
         self.rewrites.append(('R-slice statements %s..%s of %s' % (frm, to, fn), where, 1))
         self.emit_repo(s, start, end, text=seg, fn='slice')
 
